@@ -248,6 +248,39 @@ def _bind(helper: FuncNode, call: ast.Call) -> dict[str, ast.AST] | None:
     return out
 
 
+def _to_expr(stmts: list[ast.stmt], depth: int = 0) -> ast.AST | None:
+    """A statement list made of pure local bindings, if/else and returns as ONE expression
+    (`if c: return a` / `return b`  ->  `a if c else b`); None if it has any other shape."""
+    if not stmts or depth > 12:
+        return None
+    s, rest = stmts[0], stmts[1:]
+    if isinstance(s, ast.Return):
+        return s.value if s.value is not None else ast.Constant(None)
+    if isinstance(s, ast.Pass) or (isinstance(s, ast.Expr) and isinstance(s.value, ast.Constant)):
+        return _to_expr(rest, depth)
+    if isinstance(s, (ast.Assign, ast.AnnAssign)):
+        tgt = s.targets[0] if isinstance(s, ast.Assign) and len(s.targets) == 1 else getattr(s, "target", None)
+        if not isinstance(tgt, ast.Name) or s.value is None or _has_await(s.value):
+            return None
+        uses = sum(1 for st in rest for n in ast.walk(st) if isinstance(n, ast.Name) and n.id == tgt.id
+                   and isinstance(n.ctx, ast.Load))
+        rebound = any(isinstance(n, ast.Name) and n.id == tgt.id and isinstance(n.ctx, ast.Store)
+                      for st in rest for n in ast.walk(st))
+        if rebound or (not _is_pure(s.value) and uses > 1):
+            return None
+        sub = _Subst({tgt.id: s.value})
+        return _to_expr([sub.visit(copy.deepcopy(st)) for st in rest], depth + 1)
+    if isinstance(s, ast.If) and not _has_await(s.test):
+        def falls(body: list[ast.stmt]) -> bool:
+            return not (body and isinstance(body[-1], ast.Return))
+        a = _to_expr(list(s.body) + (rest if falls(s.body) else []), depth + 1)
+        b = _to_expr(list(s.orelse) + (rest if falls(s.orelse) else []) if (s.orelse or rest) else [], depth + 1)
+        if a is None or b is None:
+            return None
+        return ast.copy_location(ast.IfExp(test=s.test, body=a, orelse=b), s)
+    return None
+
+
 def _simple_helper(helper: FuncNode) -> str | None:
     """'expr' (single return expression) | 'block' (statements, at most one trailing return) | None."""
     body = _strip_doc(helper.body)
@@ -256,6 +289,9 @@ def _simple_helper(helper: FuncNode) -> str | None:
         return None
     if len(body) == 1 and isinstance(body[0], ast.Return) and body[0].value is not None:
         return "expr"
+    if not isinstance(helper, ast.AsyncFunctionDef) and any(isinstance(n, ast.Return) for st in body for n in walk_no_nested(st)) \
+            and len(body) <= 25 and _to_expr(copy.deepcopy(body)) is not None:
+        return "cond"
     rets = [n for s in body for n in walk_no_nested(s) if isinstance(n, ast.Return)]
     if not rets or (len(rets) == 1 and rets[0] is body[-1]):
         if len(body) <= 25:
@@ -306,6 +342,13 @@ def inline_helpers(prog: Program, fn: FuncInfo, node: FuncNode | None = None, ex
                                     nn.id = ren[nn.id]
                         sub = _Subst({k: v for k, v in binds.items() if k not in locals_h})
                         hb = [sub.visit(st) for st in hb]
+                        if kind == "cond":
+                            ce = _to_expr(hb)
+                            if ce is None:
+                                continue
+                            _replace_node(s, call, ce, awaited=False)
+                            changed = done = True
+                            break
                         if kind == "expr":
                             new_expr = hb[0].value  # type: ignore[union-attr]
                             _replace_node(s, call, new_expr, awaited=isinstance(h, ast.AsyncFunctionDef))
